@@ -73,6 +73,23 @@ func boundCells(x *Ctx) {
 				}
 			}
 			for _, q := range rf.Paths {
+				// the option applies another time option: f(t) = WithX(instant)(t). That option's own obligation
+				// covers the cell; the instant handed to it must be the caller's (or now + the caller's duration)
+				if q.End == paths.EndReturn && len(q.Results()) == 1 {
+					if r := q.Results()[0]; r != nil && r.Op == "dyncall" && len(r.Args) == 2 && r.Args[0] != nil && r.Args[0].Op == "call" && len(r.Args[0].Args) == 1 {
+						for _, c := range ctors {
+							if paths.FuncName(c) != r.Args[0].Name && load.ShortName(c) != r.Args[0].Name {
+								continue
+							}
+							if c.Signature.Params().Len() == 1 && c.Signature.Params().At(0).Type().String() == "time.Time" {
+								n++
+								if inst := r.Args[0].Args[0]; !callerInstant(inst) {
+									bad += fmt.Sprintf("%s: the option hands %s to %s: not the caller's instant (or now + the caller's duration)\n", x.P.Pos(q.Ret.Pos()), inst, load.ShortName(c))
+								}
+							}
+						}
+					}
+				}
 				stores := q.FieldStores(tok)
 				var names []string
 				for k := range stores {
